@@ -6,7 +6,8 @@
    leaves no leaf of any version unprotected except the documented ones. *)
 EXTENDS ClusterArtifacts, SequencesExt
 CONSTANTS MaxN,        \* created clusters: 3..MaxN nodes
-          Thresholds   \* "default" | "all"
+          Thresholds,  \* "default" | "all"
+          FortVers     \* format versions explored (all of them except in the small control configurations)
 Addr(i) == "00000000000000000000000000000000000000a" \o ToString(i)
 FortCfg(ver, art) == [src |-> "fort", art |-> art, ver |-> ver, n |-> 3, t |-> 2, v |-> 2, net |-> "goerli",
                       amounts |-> <<>>, comp |-> FALSE, gas |-> 30000000, fee |-> <<Addr(1), Addr(2)>>,
@@ -36,14 +37,19 @@ CanonFiles(c) == [j \in DOMAIN AmountSeq(c) |->
                                                    sig |-> DSig(i, AmountSeq(c)[j]), sig_ok |-> TRUE,
                                                    fork |-> ForkOf[c.net], net |-> c.net]]]]
 ThresholdsOf(n) == IF Thresholds = "all" THEN {0} \cup 2..n ELSE {0}
-MCInit == \/ \E ver \in Vers, art \in {"lock", "def"} : InitWith(FortCfg(ver, art))
+MCInit == \/ \E ver \in FortVers, art \in {"lock", "def"} : InitWith(FortCfg(ver, art))
           \/ \E n \in 3..MaxN : \E t \in ThresholdsOf(n) :
                \E am \in {<<>>, <<1, 31>>, <<16, 16, 8>>} : \E comp \in BOOLEAN : InitWith(CreateCfg(n, t, am, comp))
+\* bound of the exploration only: the next case starts from the pristine file again (the design spec allows starting
+\* it right after a finished one, which multiplies transitions, not states)
+Discard == cur.state = "done" /\ cur' = Pristine /\ verdict' = "intact" /\ UNCHANGED <<cfg, phase, lk, obs>>
 MCNext == \/ Create \/ Load(CanonView(cfg)) \/ Verify
           \/ \E i \in 1..cfg.n : Keystores(i) \/ Deposits(i, CanonFiles(cfg))
           \/ \E S \in SUBSET (1..cfg.n) : Combine(S)
-          \/ \E r \in Rows : \E kind \in KindsOf(r) : \E ch \in BOOLEAN : Tamper(FullPath(r, cfg.art), kind, ch)
-          \/ \E kind \in Rewrites : Rewrite(kind)
+          \/ cur.state = "pristine" /\ \E r \in Rows : \E kind \in KindsOf(r) : \E ch \in BOOLEAN :
+                                         Tamper(FullPath(r, cfg.art), kind, ch)
+          \/ cur.state = "pristine" /\ \E kind \in Rewrites : Rewrite(kind)
+          \/ Discard
           \/ \E ok \in BOOLEAN, heq \in BOOLEAN : LoadT(ok, heq)
           \/ \E res \in {"intact", "detected"} : VerifyT(res)
 MCSpec == MCInit /\ [][MCNext]_vars
